@@ -31,4 +31,17 @@ PROPS["C14"] = {
     "assumptions": ["version strings contain no '$'", "four-digit years"],
 }
 
+PROPS["C09"] = {
+    "suites": ["patterns", "process_line", "format_file"],
+    "level_text": "Kernel-checked theorems for all lines, indents and captures about Gallina transcriptions of processLine, formatEndOfFile, checkStandardHeader and the whole byte-level format function: indentation law (2 spaces per open block, column 0 for flag/prefix/suffix lines, body never starts with a blank), end-of-file shape, header test; idempotence over all byte contents is refuted by a model witness that replays on the binary (known finding). Tied by pins on eight patterns, the header constant and the function literals, by function-level differential runs (12 directive matchers, processLine) and by CLI runs of format / format --check on generated files compared byte for byte with the model.",
+    "level_note": "Trusted: Coq kernel, translator, extraction, harness. Modelled: processLine, formatEndOfFile, checkStandardHeader, processFile's data flow, the format-only parser incl. its two panics; Go map iteration order of parseLine is an explicit order argument (both extreme orders are evaluated, the binary must agree with one). The upper-case lint of --check is observed, not modelled. Idempotence/canonical form on files with at least one entry and --check agreement are decided per generated file by the oracle.",
+    "assumptions": ["no Unicode white space beyond ASCII in TrimSpace positions", "files are read and written atomically by the OS"],
+}
+PROPS["C10"] = {
+    "suites": ["process_line", "format_file"],
+    "level_text": "Kernel-checked theorem that every line no directive pattern claims (entries, comments, markers) keeps its text byte for byte for all lines and indents; the directive cases are shown NOT to be white-space-only by model witnesses that replay on the binary (known finding C10-formatter-drops-text). Per generated file the oracle compares generate before/after format and the white-space-stripped line sequences on the real binary. Tied as C09.",
+    "level_note": "Trusted as C09. The equality generate(format x) = generate x is decided per generated file on the binary (the compiler is modelled separately, see C01), not yet by a theorem.",
+    "assumptions": ["as C09"],
+}
+
 NOT_APPLICABLE = {}
